@@ -164,6 +164,7 @@ MUTANTS = [
     ("worker-replay-without-set-file", "C07", "replay", "mypy/build_worker/worker.py", "            manager.errors.set_file(state.xpath, id, state.options)\n", "", "violation"),
     ("native-parser-arg-error-not-blocking", "C14", "parsers", "mypy/nativeparse.py", "                message_registry.ARG_CONSTRUCTOR_TOO_MANY_ARGS.value,\n                invalid.line,\n                invalid.column,\n                blocker=True,", "                message_registry.ARG_CONSTRUCTOR_TOO_MANY_ARGS.value,\n                invalid.line,\n                invalid.column,\n                blocker=False,", "violation"),
     ("pass1-for-else-block-skipped", "C14", "pass1", "mypy/semanal_pass1.py", "    def visit_for_stmt(self, s: ForStmt) -> None:\n        s.body.accept(self)\n        if s.else_body is not None:\n            s.else_body.accept(self)", "    def visit_for_stmt(self, s: ForStmt) -> None:\n        s.body.accept(self)", "violation"),
+    ("split-commas-unguarded-pop", "C20", "split_commas", "mypy/config_parser.py", '    if items and items[-1] == "":\n        items.pop(-1)', '    items.pop(-1)\n    items.pop(-1)', "violation"),
     ("enabled-parent-check-dropped", "C13", "is_error_code_enabled", "mypy/errors.py", "elif error_code.sub_code_of is not None and error_code.sub_code_of in current_mod_disabled:\n            return False", "elif error_code.sub_code_of is not None and error_code.sub_code_of in current_mod_enabled:\n            return False", "violation"),
 ]
 
